@@ -161,6 +161,21 @@ def scheme_unranked_free(rng):
     return [[0., b, rng.choice([t, t, 0.5 * b, b]), 0., 0., 0.], [t, t, 0., 0., 0., 0.]]
 
 
+def scheme_extreme_ratio(rng):
+    """S12: tie costs ten to twelve orders of magnitude below the inversion cost (p = 2^-40, exactly representable; use
+    with n <= 8, m <= 8 so that every sum stays exact): scores that differ by a relative 1e-12"""
+    p = 2.0 ** -rng.choice([34, 40])
+    fam = rng.choice(["unifying", "pseudodistance", "induced", "one-plus"])
+    if fam == "unifying":
+        return [[0., 1., p, 0., 1., p], [p, p, 0., p, p, 0.]]
+    if fam == "pseudodistance":
+        return [[0., 1., p, 0., 1., 0.], [p, p, 0., p, p, 0.]]
+    if fam == "induced":
+        return [[0., 1., p, 0., 0., 0.], [p, p, 0., 0., 0., 0.]]
+    q = 1.0 + p
+    return [[0., 1., q, 0., 1., q], [q, q, 0., q, q, 0.]]
+
+
 def scheme_decimal(rng):
     return scheme_random(rng, grid=DECIMAL)
 
@@ -175,7 +190,7 @@ def scheme_threshold(rng):
 SCHEME_CLASSES = {
     "S1": scheme_preset, "S2": scheme_preset_multiple, "S3": scheme_random, "S4": scheme_perturbed,
     "S5": scheme_lookalike, "S6": scheme_degenerate, "S7": scheme_decimal, "S8": scheme_threshold,
-    "S9": scheme_free_ties, "S10": scheme_near_tie, "S11": scheme_ratio_band,
+    "S9": scheme_free_ties, "S10": scheme_near_tie, "S11": scheme_ratio_band, "S12": scheme_extreme_ratio,
 }
 
 
@@ -192,7 +207,9 @@ def is_dyadic(s):
         for v in vec:
             f = ref.fr(v)
             if (1 << 24) % f.denominator != 0 or f.numerator >= (1 << 40):
-                return False
+                # extreme-ratio schemes (S12): grain 2^-40 with penalties <= 2 stay exact for n <= 8, m <= 8
+                if (1 << 40) % f.denominator != 0 or f > 2:
+                    return False
     return True
 
 
@@ -209,7 +226,7 @@ def element_names(rng, n, kind=None):
     strings), mixed_str (words, some digit strings together with words)"""
     if kind is None:
         kind = rng.choice(["int", "int", "bigint", "str", "str", "intlike", "mixed_str", "digits_plus_word", "negint",
-                           "hugeint"])
+                           "hugeint", "comma_space"])
     if kind == "int":
         base = rng.choice([0, 0, 1, 5])
         names = list(range(base, base + n))
@@ -220,6 +237,10 @@ def element_names(rng, n, kind=None):
         names = rng.sample(pool, n) if n <= len(pool) else [f"e{i}" for i in range(n)]
     elif kind == "intlike":
         names = [str(v) for v in rng.sample(range(0, 60), n)]
+    elif kind == "comma_space":
+        # names that contain the separators used when a bucket is printed: different rankings can print identically
+        pool = ["x", "x, x", "x, x, x", "a", "b", "a, b", "b, a", "c}, {d", "c", "d"]
+        names = rng.sample(pool, min(n, len(pool)))
     elif kind == "negint":
         names = rng.sample(range(-8 - n, 12 + n), n)
     elif kind == "hugeint":
@@ -282,10 +303,25 @@ def perturb(rng, ranking, nb_moves):
     return r
 
 
-def dataset(rng, cls=None, n=None, m=None, names=None, nmax=7, mmax=6, classes=None):
-    """returns (class name, dataset) -- the dataset always has at least one element"""
+OUTLIER = {"p": 0.05, "n_only_up_to": None}
+
+
+def dataset(rng, cls=None, n=None, m=None, names=None, nmax=7, mmax=6, classes=None, outlier=None):
+    """returns (class name, dataset) -- the dataset always has at least one element.
+    outlier: probability of a size outlier (more elements and / or more rankings than nmax / mmax: thresholds on sizes
+    and counts -- >= 9 elements, >= 8 rankings, more elements than an internal bound -- are only met there); None = the
+    module default OUTLIER["p"] when neither n nor m is imposed"""
     if cls is None:
         cls = rng.choice((classes or "D1 D2 D3 D3 D4 D6 D7 D8 D9 D10").split())
+    p_out = OUTLIER["p"] if outlier is None else outlier
+    if n is None and m is None and names is None and p_out and rng.random() < p_out:
+        cap = OUTLIER["n_only_up_to"]
+        if rng.random() < 0.6:
+            nmax = min(cap, nmax + 3) if cap else rng.randint(nmax + 1, 2 * nmax + 4)
+            n = nmax if cap else None
+        if rng.random() < 0.6:
+            mmax = rng.randint(mmax + 2, mmax + 8)
+            m = mmax
     for _ in range(50):
         ds = _dataset(rng, cls, n, m, names, nmax, mmax)
         if ref.universe(ds):
@@ -423,6 +459,23 @@ def _dataset(rng, cls, n, m, names, nmax, mmax):
                 else:
                     r.append([e])
             ds.append(r)
+        return ds
+    if cls == "D16":     # an incomplete ranking next to its own unified form, an empty ranking next to the all-tied one
+        ds = _dataset(rng, rng.choice(["D3", "D3", "D4", "D7"]), n, m, names, nmax, mmax)
+        uni = ref.universe(ds)
+        if uni:
+            for r in list(ds)[:2]:
+                if rng.random() < 0.8:
+                    twin = ref.unify([r] + [[list(uni)]])[0]
+                    ds.insert(rng.randint(0, len(ds)), [list(b) for b in twin])
+        return ds
+    if cls == "D17":     # complete rankings, each repeated one to three times
+        base = _dataset(rng, rng.choice(["D1", "D2", "D2"]), n, max(1, (m or 3) // 2), names, nmax, mmax)
+        ds = []
+        for r in base:
+            for _ in range(rng.choice([1, 2, 2, 3])):
+                ds.append([list(b) for b in r])
+        rng.shuffle(ds)
         return ds
     if cls == "D15":     # a ranking with ties and its reverse equally often, plus one-bucket partial rankings: with cheap
         base = ranking_over(rng, names, rng.choice([0.4, 0.6]))      # ties the all-tied ranking beats every input
